@@ -377,3 +377,78 @@ Theorem C07_big_truncated_refined : forall (k : fkind) (integer fraction : bytes
 Proof. exact LexBigReach.truncated_bh_refined. Qed.
 Print Assumptions C07_big_truncated_refined.
 
+
+(* ---- the f32 GLUE of de.rs under float_roundtrip (single_precision: lexical's binary32 algorithm, the long-literal path, negative integers beyond i64 — where F17 lived):
+        the glue model of Model/Lex.v computes exactly the specification the typed model uses (NumF32.rne_decimal32: the literal's exact value rounded ONCE to binary32),
+        for every input; the executable glue model runs against the crate (sjdriver_f32 vs op f32) ---- *)
+From Coq Require Import ZArith NArith Reals Lia Lra List Bool.
+From Flocq Require Import Core BinarySingleNaN.
+From SJ Require Import Base.Bytes Base.FloatB Gen.Tables Gen.LexTables Model.Read Model.Num Model.Lex Model.NumF32 Model.ValueSer.
+From SJ Require Import Proofs.GrammarNum Proofs.LexGlue Proofs.FloatDefault Proofs.LexOracle32 Proofs.LexFull32.
+From SJ Require Import Proofs.LexBh Proofs.LexFull.
+From SJ Require Import Model.Ty Model.DeTyped.
+From SJ Require Import Proofs.LexF32Glue.
+Theorem C07_f32_fr_spec : forall (sig : N) (e : Z), (sig < two64N)%N ->
+  f32_fr sig e = option_map bits_of_b32 (f32_fr_spec sig e).
+Proof. exact (@LexF32Glue.C07_f32_fr_spec). Qed.
+Print Assumptions C07_f32_fr_spec.
+
+Theorem C07_f32_long_spec : forall (integer fraction : bytes) (e : Z), long_ok integer fraction e ->
+  f32_long integer fraction e = option_map bits_of_b32 (f32_long_spec integer fraction e).
+Proof. exact (@LexF32Glue.C07_f32_long_spec). Qed.
+Print Assumptions C07_f32_long_spec.
+
+Theorem C07_f32_negint_spec : forall sig : N, (sig < two64N)%N ->
+  negated_u64_as_float_bits F32 sig = bits_of_b32 (Bopp (binary_normalize 24 128 prec24_gt_0 prec24_lt_emax mode_NE (Z.of_N sig) 0 false)).
+Proof. exact (@LexF32Glue.C07_f32_negint_spec). Qed.
+Print Assumptions C07_f32_negint_spec.
+
+From Coq Require Import ZArith NArith Lia List Bool ZifyBool ZifyNat ZifyN.
+From Flocq Require Import Core BinarySingleNaN.
+From SJ Require Import Base.Bytes Base.FloatB Gen.Tables Gen.LexTables Model.Read Model.Num Model.Lex Model.NumF32 Model.De Model.Ty Model.DeTyped.
+From SJ Require Import Spec.Syntax Spec.Denote.
+From SJ Require Import Proofs.GrammarNum Proofs.LexGlue Proofs.LexFull Proofs.LexF32Glue.
+From SJ Require Import Proofs.TypedRoundtripF32.
+From Coq Require Import Reals Lra.
+From SJ Require Import Proofs.FloatDefault Proofs.LexOracle32 Proofs.LexFull32 Proofs.LexC07.
+From SJ Require Import Proofs.LexF32Glue2.
+Theorem C07_f32_parser_glue : forall (E : env) (positive : bool) (s : st), (numspan (rest s) <= 100000000)%Z ->
+  parse_integer_a E positive s = parse_integer_s E positive s.
+Proof. exact (@LexF32Glue2.parse_integer_glue). Qed.
+Print Assumptions C07_f32_parser_glue.
+
+Theorem C07_f32_glue_spec : forall (E : env) (n : numlit) (positive : bool) (r : bytes) (o : nat) (p : bool) (d : N),
+  num_ok n = true -> fw n r -> (length (render_abs n) < 100000000)%nat ->
+  parse_integer_a E positive (mkSt (render_abs n ++ r) o p d) = parse_integer_s E positive (mkSt (render_abs n ++ r) o p d).
+Proof. exact (@LexF32Glue2.C07_f32_glue_spec). Qed.
+Print Assumptions C07_f32_glue_spec.
+
+Theorem C07_f32_typed_glue : forall (E : env) (input : bytes), (zlen input <= 100000000)%Z ->
+  from_input_typed E TF32 input = from_input_f32_a E input.
+Proof. exact (@LexF32Glue2.from_input_typed_f32_glue). Qed.
+Print Assumptions C07_f32_typed_glue.
+
+Theorem C07_f32_model : forall (E : env) (n : numlit) (positive : bool) (r : bytes) (o : nat) (p : bool) (d : N),
+  tm E = TEof -> num_ok n = true -> fw n r -> (length (render_abs n) < 100000000)%nat ->
+  is_float_lit n ->
+  let x := lit_real n in
+  let run := parse_integer_a E positive (mkSt (render_abs n ++ r) o p d) in
+  let s_end := pkd r (o + length (render_abs n)) d in
+  ((Rabs (RNE32 x) < bpow radix2 128)%R /\
+   exists f : b32, run = Ok (PF64 (b64_of_b32 (if positive then f else Bopp f)), s_end) /\
+                   is_finite f = true /\ Bsign f = false /\ B2R f = RNE32 x)
+  \/
+  ((bpow radix2 128 <= Rabs (RNE32 x))%R /\ exists i, run = Err NumberOutOfRange i).
+Proof. exact (@LexF32Glue2.C07_f32_model). Qed.
+Print Assumptions C07_f32_model.
+
+Theorem C07_f32_model_negint : forall (E : env) (n : numlit) (r : bytes) (o : nat) (p : bool) (d : N),
+  tm E = TEof -> num_ok n = true -> fw n r -> (length (render_abs n) < 100000000)%nat ->
+  int_syntax n = true -> (fst (lit_value n) <= Z.of_N u64_max)%Z ->
+  (0 <=? wrap_i64 (- wrap_i64 (fst (lit_value n))))%Z = true ->
+  exists f : b32,
+    parse_integer_a E false (mkSt (render_abs n ++ r) o p d) = Ok (PF64 (b64_of_b32 (Bopp f)), pkd r (o + length (render_abs n)) d) /\
+    is_finite f = true /\ Bsign f = false /\ B2R f = RNE32 (IZR (fst (lit_value n))).
+Proof. exact (@LexF32Glue2.C07_f32_model_negint). Qed.
+Print Assumptions C07_f32_model_negint.
+
